@@ -279,7 +279,7 @@ CHECKS["C14"] = dict(
 # what later rounds added to a check (appended to its text)
 ADDED = {
     "C01": "Later additions: `e2e burst` (3-6 data sets handed over back to back with the consumer paused; deliveries matched by sequence number and judged as an in-order duplicate-free sub-sequence), the template sent a second time mid-session, one set of 1000..3000 small records in some tcp/udp sessions.",
-    "C03": "Later additions: collectors configured for UDP in a third of the stateful sessions.",
+    "C03": "Later additions: collectors configured for UDP in a third of the stateful sessions, short variable-length values in the three-octet length form.",
     "C04": "Later additions: the CONTENT of the stored template is judged after a history (`dec tpl`), same-id templates that differ only in the enterprise of an element, a withdrawal-shaped record, a template with a registered element of an undecodable type, collectors configured for UDP.",
     "C05": "Later additions: `agg msg` (several records in ONE data set through the library's encoder and the real collector decoder into AggregateMsgByFlowKey), permuted element order, records lacking correlate fields, aggregation configurations with permuted element lists, crash-only sessions for records whose template lacks any element the aggregation reads (found and fixed D19, D20).",
     "C06": "Later additions: `agg msg`, refused records for held flows (the scheduling must not change), hundreds of flows due in one scan.",
@@ -289,7 +289,7 @@ ADDED = {
     "C10": "Later additions: the model's atomic steps are pinned to the source by facts from tools/timerfacts (tie_add_template_is_one_locked_step, tie_expiry_assigned_before_timer_armed, tie_callback_is_one_conditional_delete, tie_conditional_delete_order, tie_expiryTime_accessors); collectors configured without a lifetime (effectiveTTL, default_lifetime_is_the_template_ttl_constant); week-long lifetimes.",
     "C11": "Later additions: read deadlines armed by the reader are made to expire whenever it has to wait for a segment; the collector runs with a TemplateTTL and the harness's clock, `fr tick` fires whatever a TCP collector scheduled (nothing may be).",
     "C12": "Later additions: messages past the reader's 4096-byte buffer, idle clients (6 s / 11 s), small MaxBufferSize on TCP/TLS collectors, tie_collector_arms_no_deadline, tie_template_elements_never_changed_in_place.",
-    "C13": "Later additions: exclusive_lock_where_records_are_exposed, helpers_never_touch_the_mutex, a ForAllRecordsDo callback that writes (`touch`) in the stress workloads.",
+    "C13": "Later additions: exclusive_lock_where_records_are_exposed, helpers_never_touch_the_mutex, clock_read_inside_critical_section, a ForAllRecordsDo callback that writes (`touch`) in the stress workloads.",
     "C14": "Later additions: tie_refresh_reads_only_the_template_map, tie_probe_arms_read_deadline_only, tie_sequence_counter_advances_atomically; tie_every_close_call_waits; TCP sessions against a collector that reads late (a Write blocked across several connection probes).",
     "C15": "Later additions: records grown with AddInfoElement after their buffer was taken (`ie recbufx`), whole-record observations judged by Ipfix.C15.holdsRecBuf (model_holdsRecBuf); elements that live on (`ie mut`: typed setters, ResetValue); the decoder's input buffer is overwritten before the decoded values are read.",
     "C16": "Later additions: the record list taken out of a set before a reset must not change afterwards; refused prepares mid-sequence (re-run without them and compared); the harness reuses its element slice after the copying add calls.",
